@@ -70,6 +70,15 @@ theorem eval_ctx_irrel (defs : Name → Q) : ∀ (n : Nat) (q : Q) (g g' : Ctx) 
       have h2 : (fun w u => eval defs n g ⟨ρ.clo, (x, w) :: ρ.vars⟩ ext u) = (fun w u => eval defs n g' ⟨ρ.clo, (x, w) :: ρ.vars⟩ ext u) :=
         funext fun w => funext fun u => ih ext g g' _ u hg
       rw [h1, h2]
+    | obj sp =>
+      simp only [eval]
+      have : (fun q x => eval defs n g ρ q x) = (fun q x => eval defs n g' ρ q x) :=
+        funext fun q => funext fun x => ih q g g' ρ x hg
+      rw [this]
+    | objStart => rfl
+    | objSnoc init k v => rfl
+    | objSnocC init key v => rfl
+    | delay q => simp only [eval]; exact ih q g g' ρ v hg
 
 theorem cy_var {code defs entry nf n} (hfun : FuncsOK code defs entry nf) (ihn : CY code defs entry nf n) (x : Nat) :
     CYq code defs entry nf (n+1) (.var x) := by
